@@ -14,6 +14,7 @@ import (
 // RunResult is what one run reports.
 type RunResult struct {
 	Viol       *zsim.Violation
+	Findings   []zsim.Violation
 	Steps      int
 	SimTime    int64
 	Hash       uint64
@@ -76,7 +77,7 @@ func finish(s *zsim.Sim, ch *zsim.Choices, summary string, post func() *zsim.Vio
 		Viol: s.Viol, Steps: s.StepNo(), SimTime: s.Now(), Hash: s.Hash(), Strategy: s.Strategy(),
 		Truncated: s.Truncated, Stuck: s.Stuck, Switches: s.Switches,
 		Probes: s.Probes, Faults: s.Faults, Trace: s.Trace, Summary: summary,
-		Rec: ch.Rec, Overrun: ch.Overrun,
+		Rec: ch.Rec, Overrun: ch.Overrun, Findings: s.Findings,
 	}
 	if r.Viol == nil && post != nil {
 		r.Viol = post()
